@@ -14,6 +14,45 @@ def trace_cfg(wd, name, ts, parseok, spec, invs):
             f.write("INVARIANTS " + " ".join(invs) + "\n")
 
 
+def gen_random(rng, nrand):
+    scen = []
+    # seeded random histories, longer, all three sizes + the authentic-but-invalid dictionary
+    for k in range(nrand):
+        ts = [20000, 32768, 5000][k % 3]
+        parseok = (k % 7 != 0)
+        sizes = [0, ts - 1, ts, ts + 1, ts + 16384, 134217729]
+        steps = []
+        for _ in range(rng.randint(4, 24)):
+            x = rng.random()
+            if x < 0.25:
+                steps.append({"a": "Vote", "size": rng.choice(sizes + [ts, ts])})
+            elif x < 0.32:
+                steps.append({"a": "Tick"})
+            else:
+                sz = rng.choice(sizes + [ts] * 6)
+                idx = rng.randint(0, (ts + 16383) // 16384 + 1)
+                lens = [0, 1, 16384, 16385]
+                if sz > idx * 16384:
+                    lens += [sz - idx * 16384, sz - idx * 16384 - 1]
+                    lens += [min(16384, sz - idx * 16384)] * 6
+                steps.append({"a": "Block", "idx": idx, "sz": sz, "n": max(0, rng.choice(lens)),
+                              "q": "honest" if rng.random() < 0.7 else "forged"})
+        # recovery suffix: honest votes take a strict majority, then two honest passes with a tick
+        # in between must publish the metadata whatever happened before (C12 liveness clause)
+        wrong = sum(1 for st in steps if st["a"] == "Vote" and st["size"] != ts and 0 < st["size"] <= 134217728)
+        right = sum(1 for st in steps if st["a"] == "Vote" and st["size"] == ts)
+        steps += [{"a": "Vote", "size": ts}] * max(1, wrong - right + 1)
+        nblk = (ts + 16383) // 16384
+        for _ in range(2):
+            steps.append({"a": "Tick"})
+            order = list(range(nblk))
+            rng.shuffle(order)
+            for b in order:
+                steps.append({"a": "Block", "idx": b, "sz": ts, "n": min(16384, ts - b * 16384), "q": "honest"})
+        scen.append({"truesize": ts, "parseok": parseok, "recover": True, "steps": steps})
+    return scen
+
+
 def run(prop, tier, seed, replay=None):
     v = Verdict(prop, tier, seed)
     rng = random.Random(seed)
@@ -44,41 +83,7 @@ def run(prop, tier, seed, replay=None):
                 walks = walks[:2500]
             for init, path in walks:
                 scen.append({"truesize": ts, "parseok": True, "steps": [lab for lab, _ in path]})
-        # seeded random histories, longer, all three sizes + the authentic-but-invalid dictionary
-        nrand = 600 if tier == "quick" else 20000
-        for k in range(nrand):
-            ts = [20000, 32768, 5000][k % 3]
-            parseok = (k % 7 != 0)
-            sizes = [0, ts - 1, ts, ts + 1, ts + 16384, 134217729]
-            steps = []
-            for _ in range(rng.randint(4, 24)):
-                x = rng.random()
-                if x < 0.25:
-                    steps.append({"a": "Vote", "size": rng.choice(sizes + [ts, ts])})
-                elif x < 0.32:
-                    steps.append({"a": "Tick"})
-                else:
-                    sz = rng.choice(sizes + [ts] * 6)
-                    idx = rng.randint(0, (ts + 16383) // 16384 + 1)
-                    lens = [0, 1, 16384, 16385]
-                    if sz > idx * 16384:
-                        lens += [sz - idx * 16384, sz - idx * 16384 - 1]
-                        lens += [min(16384, sz - idx * 16384)] * 6
-                    steps.append({"a": "Block", "idx": idx, "sz": sz, "n": max(0, rng.choice(lens)),
-                                  "q": "honest" if rng.random() < 0.7 else "forged"})
-            # recovery suffix: honest votes take a strict majority, then two honest passes with a tick
-            # in between must publish the metadata whatever happened before (C12 liveness clause)
-            wrong = sum(1 for st in steps if st["a"] == "Vote" and st["size"] != ts and 0 < st["size"] <= 134217728)
-            right = sum(1 for st in steps if st["a"] == "Vote" and st["size"] == ts)
-            steps += [{"a": "Vote", "size": ts}] * max(1, wrong - right + 1)
-            nblk = (ts + 16383) // 16384
-            for _ in range(2):
-                steps.append({"a": "Tick"})
-                order = list(range(nblk))
-                rng.shuffle(order)
-                for b in order:
-                    steps.append({"a": "Block", "idx": b, "sz": ts, "n": min(16384, ts - b * 16384), "q": "honest"})
-            scen.append({"truesize": ts, "parseok": parseok, "recover": True, "steps": steps})
+        scen += gen_random(rng, 600 if tier == "quick" else 20000)
         for i, sc in enumerate(scen):
             sc["id"] = i
     vh = vlib.build_harness()
@@ -155,3 +160,45 @@ def run(prop, tier, seed, replay=None):
         v.cov["states"] += r.distinct
         v.cov["transitions"] += r.generated
     return v.finish()
+
+
+def crash_probe(v, prop, tier, seed, scen=None):
+    """The torrent-side processing of ut_metadata messages, for C05: random histories, crashes only."""
+    rng = random.Random(seed + 55)
+    if scen is None:
+        scen = gen_random(rng, 300 if tier == "quick" else 6000)
+        # and walks covering the edges of Metadata.tla's graph (two-block metadata): they reach the states after a hash mismatch
+        r = run_tlc("MCMetadata", "Metadata_edges_32768.cfg", workers=1, timeout=900)
+        require_ok(r, "metadata edge dump (probe)")
+        g = Graph.from_result(r, lambda s: s["infoLen"] == 0 and not s["complete"] and all(c == 0 for c in s["votes"].values()))
+        os.unlink(r.outfile)
+        walks, unc = g.covering_walks(rng, maxlen=14)
+        if tier == "quick" and len(walks) > 1500:
+            rng.shuffle(walks)
+            walks = walks[:1500]
+        for init, path in walks:
+            scen.append({"truesize": 32768, "parseok": True, "steps": [lab for lab, _ in path]})
+        for i, sc in enumerate(scen):
+            sc["id"], sc["binding"] = i, "metadata"
+    vh = vlib.build_harness()
+    wd = vlib.scratch("mdp-")
+    sf, rf = os.path.join(wd, "scen.ndjson"), os.path.join(wd, "res.ndjson")
+    with open(sf, "w") as f:
+        for sc in scen:
+            f.write(json.dumps(sc, separators=(",", ":")) + "\n")
+    out, err = vlib.run_harness(vh, ["metadata", "-in", sf, "-out", rf, "-parallel", "12", "-timeout", "60"], timeout=3600)
+    log(out.strip())
+    for line in open(rf):
+        res = json.loads(line)
+        sc = scen[res["index"]]
+        if res.get("crash") or res.get("hang"):
+            v.violation("torrent-side-crash", "the process crashed/hung while the torrent handled metadata messages (scenario %s): %s" % (sc["id"], res.get("stderr", "")[:300]), sc)
+            continue
+        o = res["out"]
+        if o.get("note"):
+            raise Internal("metadata probe scenario %s: %s" % (sc["id"], o["note"]))
+        for vi in o.get("violations") or []:
+            if vi["key"].startswith("metadata-panic"):
+                v.violation("torrent-side-panic", "tor.handleEvent panicked on a ut_metadata message sequence: " + vi["what"] + " (metadata scenario %s step %d)" % (sc["id"], vi["step"]), sc)
+    v.cov["torrent_side_metadata"] = {"histories": len(scen), "rule": "seeded random ut_metadata histories (votes, honest and forged blocks, ticks, recovery passes) through tor.handleEvent; panics only"}
+    return len(scen)
